@@ -6,7 +6,7 @@ cd /repo || exit 9
 if ! git diff --quiet; then echo "/repo dirty"; exit 9; fi
 git apply "$P" || { echo "PATCH DOES NOT APPLY"; exit 4; }
 for prop in "$@"; do
-  out=$(cd /verif && ./check $prop quick 2>&1); rc=$?
+  out=$(cd /verif && VERIF_EVIDENCE=/tmp/vx-seed-evidence ./check $prop quick 2>&1); rc=$?
   echo "$out" | grep -E "^VIOLATION|^UNDECIDED|^property|^KNOWN" | cut -c1-400
   echo "rc($prop)=$rc"
 done
